@@ -95,7 +95,7 @@ def requires(vfile):
     deps = []
     txt = open(os.path.join(COQ, vfile)).read()
     txt = re.sub(r"\(\*.*?\*\)", "", txt, flags=re.S)
-    for m in re.finditer(r"From\s+Traph\s+Require\s+(?:Import|Export)?\s*([^.]*)\.", txt):
+    for m in re.finditer(r"From\s+Traph\s+Require\s+(?:Import\s+|Export\s+)?(.*?)\.(?:\s|$)", txt, flags=re.S):
         for name in m.group(1).split():
             f = "theories/" + name.replace(".", "/") + ".v"
             if os.path.exists(os.path.join(COQ, f)):
@@ -278,7 +278,10 @@ def main(argv):
             "print_assumptions_closed": closed, "axioms": axioms, "coqchk": coqchk_summary,
             "proof_problems": proof_problems,
         }, **cov),
-        "assumptions": spec.get("assumptions", []),
+        "assumptions": spec.get("assumptions", []) + [
+            "theorems quantify over well-formed requests (wf_op: LRUs non-empty and '|'-terminated, ids non-zero, distinct batch "
+            "sources) and the rule family of test/config.py (domain, subdomain, path-N)",
+            "the model is hand-written; its agreement with /repo is what this run's correspondence measures, not a theorem"],
         "wall_s": round(time.time() - t0, 2),
         "violations": len(violations),
     }
